@@ -152,7 +152,7 @@ func (x *c10ctx) checkIndexSite(f *ssa.Function, in ssa.Instruction, coll, idx s
 	}
 	nonNeg := ii.Lo != nil && ii.Lo.Sign() >= 0
 	// symbolic: idx <= base+c, len == base+d, c < d
-	su, ls := x.iv.SymUpper(idx, 0), x.iv.LenSym(coll)
+	su, ls := x.iv.SymUpperAt(idx, b, 0), x.iv.LenSym(coll)
 	if nonNeg && su.OK && ls.OK && su.Base == ls.Base && su.Off < ls.Off {
 		x.c.OK(rule, fn, construct, fmt.Sprintf("0 <= index <= %s%+d < len = %s%+d", clip(su.Base, 40), su.Off, clip(ls.Base, 40), ls.Off), x.w.InstrPos(in))
 		return
